@@ -3,7 +3,10 @@ import xarray
 
 from typing import Optional
 
-from ocean_science_utilities.tools.solvers import fixed_point_iteration
+from ocean_science_utilities.tools.solvers import (
+    Configuration,
+    fixed_point_iteration,
+)
 from ocean_science_utilities.wavephysics.balance.balance import SourceTermBalance
 from ocean_science_utilities.wavephysics.fluidproperties import (
     AIR,
@@ -77,6 +80,13 @@ def charnock_roughness_length_from_u10(speed, **kwargs) -> xarray.DataArray:
         return charnock_roughness_length(
             friction_velocity, charnock_constant=const, viscous_constant=visc
         )
+
+    # Roughness lengths are O(1e-7 ... 1e-2) m. With the solver's default absolute
+    # tolerance (1e-4) convergence would be declared after a single step for light
+    # winds; use an absolute tolerance below the smallest roughness lengths so that the
+    # relative tolerance is what decides.
+    if "configuration" not in kwargs:
+        kwargs["configuration"] = Configuration(atol=1e-10)
 
     output = fixed_point_iteration(
         _func, guess, bounds=(0, np.inf), caller="roughness_from_speed", **kwargs
